@@ -479,6 +479,13 @@ func TestDequeLinearizable(t *testing.T) {
 				c.Prefill = 0
 			}
 			ops = linContentionOps
+			// a third of them use Force pushes and Len only: the deque
+			// stays exactly at its capacity at every instant, so any
+			// other Len exposes an intermediate state of the eviction
+			if rapid.IntRange(0, 2).Draw(t, "forceOnly") == 0 {
+				c.Prefill = full
+				ops = []string{"ForcePushFront", "ForcePushBack", "ForcePushBack", "Len", "Len"}
+			}
 		}
 		for g := 0; g < ng; g++ {
 			n := rapid.IntRange(1, 7).Draw(t, "nops")
